@@ -300,6 +300,17 @@ def run(ctx):
         ctx.nt(("gen", s, e, h))
         if ok and len(bins) >= 1 and binning.in_domain(bins):
             drive_grid(ctx, bins, rng, "gen:%r:%r:%r" % (s, e, h))
+        if ok and isinstance(bins, numpy.ndarray) and bins.size and ci % 3 == 0:
+            # history: the caller shifts the returned edges in place (e.g. to bin centres), then asks for the same grid again -
+            # the generator contract judges the second answer like the first
+            try:
+                bins += 0.5 * float(h)
+                bins[0] = -180.0
+            except (ValueError, TypeError):
+                pass
+            ctx.call(calc.cleaner_range, s, e, h)
+            ctx.call(regions.magnitude_bins, s, e, h)
+            ctx.add("generator_calls_after_in_place_edit_of_the_previous_result")
     # 4. CSEP magnitude grid, integer grids, explicit tol
     ci += 1
     if ctx.mine(ci):
@@ -349,7 +360,7 @@ def run(ctx):
         run_repo_suite(ctx, ["test_calc.py", "test_spatial.py", "test_catalog.py", "test_regions.py", "test_forecast.py", "test_evaluations.py",
                              "test_magnitude_tests.py", "test_adaptiveHistogram.py"])
 
-META["added"] = "Added: awkward start/step pairs (first edge small against the step, non-binary steps), explicit-tol grids, spacings >= 2 (subnormals next to a 0.0 edge), generator check over awkward steps, the repository's own test-suite as a workload under the contract (thorough)."
+META["added"] = "Added: awkward start/step pairs (first edge small against the step, non-binary steps), explicit-tol grids, spacings >= 2 (subnormals next to a 0.0 edge), generator check over awkward steps, the repository's own test-suite as a workload under the contract (thorough). generator called again after an in-place edit of its previous result."
 MANIFEST = {
     "technique": "runtime contract (post-condition) on the real bin1d_vec/cleaner_range at every call site + exact-comparison reference bin over generated edge-adjacent probes",
     "level_text": "Every call of bin1d_vec made by the workload and by the library's own call sites is checked by an exact-comparison oracle (two hard clauses + documented round-off band); ~1e7 (quick) to ~1e9 (thorough) probe values concentrated on edges +-ulps over thousands of grids, both modes, scalar/array/int/float32 inputs; edge generators compared element-wise with the exact Decimal grid. Held-on-observed, not a proof: the float domain is sampled.",
